@@ -25,10 +25,10 @@ type memCell struct {
 }
 
 type zsummary struct {
-	requires []zreq           // len(param i) >= k
-	ensures  map[int]zens     // result j: len = len(param i) - k, valid when the error result is nil (or always if no error result)
-	errIdx   int              // index of the error result, -1 if none
-	done     bool
+	requires   []zreq       // len(param i) >= k
+	ensures    map[int]zens // result j: len = len(param i) - k, valid when the error result is nil (or always if no error result)
+	errIdx     int          // index of the error result, -1 if none
+	done       bool
 	inProgress bool
 }
 
@@ -55,25 +55,25 @@ func newZWorld(p *Program) *zworld {
 }
 
 type zfn struct {
-	w      *zworld
-	fn     *ssa.Function
-	facts  []anchoredFact
-	seen   map[string]bool          // atoms whose defining facts were generated
-	mem    map[ssa.Instruction]memCell // load instruction -> value at that point
-	fresh  int
+	w     *zworld
+	fn    *ssa.Function
+	facts []anchoredFact
+	seen  map[string]bool             // atoms whose defining facts were generated
+	mem   map[ssa.Instruction]memCell // load instruction -> value at that point
+	fresh int
 	// memory epochs: invariant obligations to prove (buffer invariant at returns/calls)
-	invObl []zobl
-	errOf  map[ssa.Value]*ssa.Call // error-typed Extract -> the call it comes from
-	built  bool
+	invObl    []zobl
+	errOf     map[ssa.Value]*ssa.Call // error-typed Extract -> the call it comes from
+	built     bool
 	callState map[ssa.Instruction]map[fieldKey]memCell // memory state just before each call
 }
 
 type zobl struct {
-	In     ssa.Instruction
-	Kind   string
-	Goals  []lin
-	Desc   string
-	Alt    [][]lin // alternative goal sets (any one suffices)
+	In    ssa.Instruction
+	Kind  string
+	Goals []lin
+	Desc  string
+	Alt   [][]lin // alternative goal sets (any one suffices)
 }
 
 func (w *zworld) get(fn *ssa.Function) *zfn {
@@ -1963,7 +1963,6 @@ func (w *zworld) requiresOf(fn *ssa.Function) []zreq {
 	return reqs
 }
 
-
 // reversePostorder of the CFG from the entry block (unreachable blocks are appended).
 func reversePostorder(fn *ssa.Function) []*ssa.BasicBlock {
 	seen := map[*ssa.BasicBlock]bool{}
@@ -1990,7 +1989,6 @@ func reversePostorder(fn *ssa.Function) []*ssa.BasicBlock {
 	}
 	return out
 }
-
 
 // definitelyNonNil: the error value returned at `at` cannot be nil.
 func definitelyNonNil(v ssa.Value, at ssa.Instruction) bool {
